@@ -141,8 +141,11 @@ impl TplLitTypeItem {
                 vs.sort();
                 let vs = vs
                     .into_iter()
-                    .map(|it| it.regex_expr())
-                    .filter(|it| !it.is_empty())
+                    // an empty alternative (`x${"" | "a"}`) stays an alternative: the empty group
+                    .map(|it| match it.regex_expr() {
+                        it if it.is_empty() => "()".to_string(),
+                        it => it,
+                    })
                     .collect::<Vec<_>>();
                 let vs = vs.join("|");
                 format!("({})", vs)
@@ -201,6 +204,10 @@ impl TplLitType {
 
         for item in &self.0 {
             regex_exp.push_str(&item.regex_expr());
+        }
+        if regex_exp.is_empty() {
+            // a template of empty parts: `//` would start a comment in the emitted module
+            return "()".to_string();
         }
         regex_exp
     }
